@@ -76,6 +76,9 @@ def cases(tier):
     out.append(("pulse-bad", "neg-amp"))
     out.append(("pulse-bad", "length"))
     out.append(("pulse-bad", "tiny-neg-amp"))
+    for how in ("constant", "ramp", "custom-one-sample", "composite", "ConstantPulse", "ConstantAmplitude", "ConstantDetuning", "ArbitraryPhase"):
+        for mag in (1.0, 1e-3, 1e-7, 9e-9, 5e-9, 1e-9, 1e-12, 1e-15, 1e-300, 5e-324):
+            out.append(("pulse-bad", ("neg", how, mag)))
     for D in [1, 2, 3, 5, 16, 100]:
         for spec in (["C", D, 0.7], ["R", D, 0.0, 3.0], ["R", D, 2.0, -1.0], ["X", [0.3 * math.sin(i) for i in range(D)]],
                      ["I", D, [0.0, 1.0, -1.0]], ["B", D, 1.0]):
@@ -312,6 +315,29 @@ def check_pulse_bad(which):
     from pulser import Pulse
     from pulser.waveforms import ConstantWaveform, RampWaveform
 
+    if isinstance(which, (list, tuple)) and which[0] == "neg":
+        # a strictly negative amplitude sample of ANY magnitude (down to the smallest denormal) through every constructor
+        _, how, mag = which
+        from pulser.waveforms import CompositeWaveform, CustomWaveform
+
+        mk = {
+            "constant": lambda: Pulse(ConstantWaveform(52, -mag), ConstantWaveform(52, 0.0), 0.0),
+            "ramp": lambda: Pulse(RampWaveform(52, 1.0, -mag), ConstantWaveform(52, 0.0), 0.0),
+            "custom-one-sample": lambda: Pulse(CustomWaveform([1.0] * 20 + [-mag] + [1.0] * 31), ConstantWaveform(52, 0.0), 0.0),
+            "composite": lambda: Pulse(CompositeWaveform(ConstantWaveform(26, 1.0), ConstantWaveform(26, -mag)), ConstantWaveform(52, 0.0), 0.0),
+            "ConstantPulse": lambda: Pulse.ConstantPulse(52, -mag, 0.0, 0.0),
+            "ConstantAmplitude": lambda: Pulse.ConstantAmplitude(-mag, RampWaveform(52, 0.0, 1.0), 0.0),
+            "ConstantDetuning": lambda: Pulse.ConstantDetuning(RampWaveform(52, -mag, 1.0), 0.0, 0.0),
+            "ArbitraryPhase": lambda: Pulse.ArbitraryPhase(ConstantWaveform(52, -mag), RampWaveform(52, 0.0, 1.0)),
+        }[how]
+        try:
+            p = mk()
+        except (ValueError, TypeError):
+            return []
+        amp = S(p.amplitude)
+        if np.any(amp < 0):
+            return [(f"C16:pulse-with-negative-amplitude-accepted:{how}", f"magnitude {mag:g}: minimum amplitude sample {amp.min():g}")]
+        return []
     try:
         if which == "neg-amp":
             Pulse(RampWaveform(10, 1.0, -1.0), ConstantWaveform(10, 0.0), 0.0)
